@@ -41,6 +41,7 @@ RULE = (
     "BadTrieProof. Non-trivial = proof length >= 2 and (absent key ending at a branch / "
     "inside an extension / below an embedded node, or a non-empty script whose result "
     "still resolves to a value). Distinct = canonical JSON."
+    ' Added after the seeded rounds: T1 may be a pruning trie or the batch trie inside an open squash_changes block; the caller scribbles on the returned proof and a second honest proof must still verify; the same trie object is re-pointed at root(T2); proofs are also handed over as generators whose producer runs another verification in between; fixed deep-chain cases (keys up to ~245 bytes).'
 )
 LEVEL_TEXT = (
     "Exploration by differential property testing: honest proofs are checked against "
